@@ -3,37 +3,36 @@ static int bad; static void fail(const char *what){ printf("MISMATCH %s\n", what
 extern int lfunc_0(void); extern void *addr_lfunc_0(void); extern void *l1_addr_lfunc_0(void); int (*volatile fp_lfunc_0)(void) = lfunc_0;
 extern int ldata_1[]; extern const void *addr_ldata_1(void); extern const void *l1_addr_ldata_1(void); extern int read_ldata_1(void); extern int l1_read_ldata_1(void); int *volatile dp_ldata_1 = ldata_1;
 extern const int ldata_ro_2[]; extern const void *addr_ldata_ro_2(void); extern const void *l1_addr_ldata_ro_2(void); extern int read_ldata_ro_2(void); extern int l1_read_ldata_ro_2(void); const int *volatile dp_ldata_ro_2 = ldata_ro_2;
-extern int lfunc_3(void); extern void *addr_lfunc_3(void); extern void *l1_addr_lfunc_3(void); int (*volatile fp_lfunc_3)(void) = lfunc_3;
+extern int lalias_3; extern void *addr_lalias_3(void); extern int read_lalias_3(void); extern void write_lalias_3(int);
 extern int lifunc_4(void); extern void *addr_lifunc_4(void); int (*volatile fp_lifunc_4)(void) = lifunc_4;
-extern int lalias_st_5; extern void *addr_lalias_st_5(void); extern void *waddr_lalias_st_5(void); extern int read_lalias_st_5(void); extern void write_lalias_st_5(int);
-extern int lalias_multi_6[]; extern void *addr_lalias_multi_6(void); extern void *waddr_lalias_multi_6(void); extern int read_lalias_multi_6(void); extern void write_lalias_multi_6(int);
+extern int lalias_st_5[]; extern void *addr_lalias_st_5(void); extern void *waddr_lalias_st_5(void); extern int read_lalias_st_5(void); extern void write_lalias_st_5(int);
+extern int lalias_multi_6; extern void *addr_lalias_multi_6(void); extern void *waddr_lalias_multi_6(void); extern int read_lalias_multi_6(void); extern void write_lalias_multi_6(int);
 int main(void){
     if ((void*)lfunc_0 != addr_lfunc_0()) fail("lfunc_0: exe vs defining library");
     if ((void*)lfunc_0 != l1_addr_lfunc_0()) fail("lfunc_0: exe vs lib1");
     if ((void*)fp_lfunc_0 != (void*)lfunc_0) fail("lfunc_0: data pointer vs code reference in exe");
-    if (fp_lfunc_0() != 200 || lfunc_0() != 200) fail("lfunc_0: call result");
+    if (fp_lfunc_0() != 119 || lfunc_0() != 119) fail("lfunc_0: call result");
     if ((const void*)ldata_1 != addr_ldata_1()) fail("ldata_1: exe vs defining library");
     if ((const void*)ldata_1 != l1_addr_ldata_1()) fail("ldata_1: exe vs lib1");
     if ((const void*)dp_ldata_1 != (const void*)ldata_1) fail("ldata_1: data pointer vs code reference in exe");
-    if (ldata_1[0] != 105 || read_ldata_1() != 105) fail("ldata_1: initial value");
-    ldata_1[0] = 1105; if (read_ldata_1() != 1105 || l1_read_ldata_1() != 1105) fail("ldata_1: write through exe not seen by library");
+    if (ldata_1[0] != 172 || read_ldata_1() != 172) fail("ldata_1: initial value");
+    ldata_1[0] = 1172; if (read_ldata_1() != 1172 || l1_read_ldata_1() != 1172) fail("ldata_1: write through exe not seen by library");
     if ((const void*)ldata_ro_2 != addr_ldata_ro_2()) fail("ldata_ro_2: exe vs defining library");
     if ((const void*)ldata_ro_2 != l1_addr_ldata_ro_2()) fail("ldata_ro_2: exe vs lib1");
     if ((const void*)dp_ldata_ro_2 != (const void*)ldata_ro_2) fail("ldata_ro_2: data pointer vs code reference in exe");
-    if (ldata_ro_2[0] != 175 || read_ldata_ro_2() != 175) fail("ldata_ro_2: initial value");
-    if ((void*)lfunc_3 != addr_lfunc_3()) fail("lfunc_3: exe vs defining library");
-    if ((void*)lfunc_3 != l1_addr_lfunc_3()) fail("lfunc_3: exe vs lib1");
-    if ((void*)fp_lfunc_3 != (void*)lfunc_3) fail("lfunc_3: data pointer vs code reference in exe");
-    if (fp_lfunc_3() != 123 || lfunc_3() != 123) fail("lfunc_3: call result");
+    if (ldata_ro_2[0] != 145 || read_ldata_ro_2() != 145) fail("ldata_ro_2: initial value");
+    if ((void*)&lalias_3 != addr_lalias_3()) fail("lalias_3: weak alias in exe vs strong symbol in library");
+    write_lalias_3(61); if (lalias_3 != 61) fail("lalias_3: write through strong symbol not seen through alias");
+    lalias_3 = 63; if (read_lalias_3() != 63) fail("lalias_3: write through alias not seen through strong symbol");
     if ((void*)lifunc_4 != addr_lifunc_4()) fail("lifunc_4: library ifunc address exe vs library");
     if ((void*)fp_lifunc_4 != (void*)lifunc_4) fail("lifunc_4: library ifunc address data vs code in exe");
-    if (lifunc_4() != 95 || fp_lifunc_4() != 95) fail("lifunc_4: ifunc call result");
-    if ((void*)&lalias_st_5 != addr_lalias_st_5() || (void*)&lalias_st_5 != waddr_lalias_st_5()) fail("lalias_st_5: symbol in exe vs its alias used by the library");
-    if (lalias_st_5 != 177 || read_lalias_st_5() != 177) fail("lalias_st_5: initial value");
-    lalias_st_5 = 1177; if (read_lalias_st_5() != 1177) fail("lalias_st_5: write in exe not seen by the library through the alias");
-    write_lalias_st_5(184); if (lalias_st_5 != 184) fail("lalias_st_5: write by the library through the alias not seen in exe");
-    if ((void*)lalias_multi_6 != addr_lalias_multi_6() || (void*)lalias_multi_6 != waddr_lalias_multi_6()) fail("lalias_multi_6: symbol in exe vs its alias used by the library");
-    if (lalias_multi_6[0] != 0 || read_lalias_multi_6() != 0) fail("lalias_multi_6: initial value");
-    lalias_multi_6[0] = 1140; if (read_lalias_multi_6() != 1140) fail("lalias_multi_6: write in exe not seen by the library through the alias");
-    write_lalias_multi_6(147); if (lalias_multi_6[0] != 147) fail("lalias_multi_6: write by the library through the alias not seen in exe");
+    if (lifunc_4() != 154 || fp_lifunc_4() != 154) fail("lifunc_4: ifunc call result");
+    if ((void*)lalias_st_5 != addr_lalias_st_5() || (void*)lalias_st_5 != waddr_lalias_st_5()) fail("lalias_st_5: symbol in exe vs its alias used by the library");
+    if (lalias_st_5[0] != 0 || read_lalias_st_5() != 0) fail("lalias_st_5: initial value");
+    lalias_st_5[0] = 1186; if (read_lalias_st_5() != 1186) fail("lalias_st_5: write in exe not seen by the library through the alias");
+    write_lalias_st_5(193); if (lalias_st_5[0] != 193) fail("lalias_st_5: write by the library through the alias not seen in exe");
+    if ((void*)&lalias_multi_6 != addr_lalias_multi_6() || (void*)&lalias_multi_6 != waddr_lalias_multi_6()) fail("lalias_multi_6: symbol in exe vs its alias used by the library");
+    if (lalias_multi_6 != 101 || read_lalias_multi_6() != 101) fail("lalias_multi_6: initial value");
+    lalias_multi_6 = 1101; if (read_lalias_multi_6() != 1101) fail("lalias_multi_6: write in exe not seen by the library through the alias");
+    write_lalias_multi_6(108); if (lalias_multi_6 != 108) fail("lalias_multi_6: write by the library through the alias not seen in exe");
     if (!bad) printf("OK\n"); return bad ? 1 : 0; }
